@@ -7,8 +7,7 @@ Open Scope string_scope.
 (* for every script text the parser model accepts (any syntax-check oracle), with p its statements after lexing: *)
 Theorem script_end_to_end chk cs model syms : parse_model_M chk cs model = POk syms ->
   exists p, script_program model = POk p /\ wf_program p = true /\ program_symbols p = Ret syms /\
-    (fn_guard p = true ->
-       (* no name of the script is used in two classes, no endogenous variable has two equation texts *)
+    (  (* no name of the script is used in two classes, no endogenous variable has two equation texts *)
        (forall a b, In a (amentions p) -> In b (amentions p) -> aname a = aname b -> ~ clash (atype a) (atype b) /\ ~ two_texts a b) /\
        forall o c, class_of syms o = Ret c ->
          c_endogenous c = map Some (filter (is_endogenous p) (script_names p)) /\
@@ -22,12 +21,12 @@ Theorem script_end_to_end chk cs model syms : parse_model_M chk cs model = POk s
          (o_leads o = None -> exists m, o_min_leads o = Some m /\ c_leads c = Z.max (script_leads p) m)).
 Proof.
   intros H. destruct (accepted_script_program chk cs model syms H) as (p & V & W & A).
-  exists p. split; [exact V|]. split; [exact W|]. split; [exact A|]. intros G. split.
-  - intros a b Ia Ib N. destruct (accepted_table p W G syms A) as (d & _ & HD & _). split.
+  exists p. split; [exact V|]. split; [exact W|]. split; [exact A|]. split.
+  - intros a b Ia Ib N. destruct (accepted_table p W syms A) as (d & _ & HD & _). split.
     + apply (accepted_no_clash p d HD a b Ia Ib N).
     + apply (accepted_one_text p d HD a b Ia Ib N).
-  - intros o c C. destruct (name_lists p W G syms o c A C) as (E1 & E2 & E3 & E4).
-    destruct (names_partition p W G syms o c A C) as [ND _].
-    destruct (lags_leads p W G syms o c A C) as (L1 & L2 & L3 & L4).
+  - intros o c C. destruct (name_lists p W syms o c A C) as (E1 & E2 & E3 & E4).
+    destruct (names_partition p W syms o c A C) as [ND _].
+    destruct (lags_leads p W syms o c A C) as (L1 & L2 & L3 & L4).
     repeat split; assumption.
 Qed.
